@@ -6,7 +6,18 @@ use crate::common::runner::Prop;
 use crate::common::tmp::Scratch;
 use crate::common::{Obs, Tier};
 use crate::crash::{self, EnumCfg, EnumStats, Ev, PG, Sim};
-use crate::props::c05::{Case, crash_op, label_stats, prefix_ops, record};
+use serde::{Deserialize, Serialize};
+
+use crate::props::c05::{Case as SeqCase, crash_op, label_stats, prefix_ops, record};
+use crate::props::c10;
+
+/// sequential history (E1 + E2) or concurrent programs under the scheduler (E6)
+#[derive(Clone, Debug, Serialize, Deserialize)]
+#[serde(untagged)]
+pub enum Case {
+    Seq(SeqCase),
+    Conc(c10::Case),
+}
 use crate::rawmodel::{LayoutSnap, Op, short};
 
 fn ceil_pg(n: usize) -> usize {
@@ -45,7 +56,7 @@ impl Prop for P {
 
     fn strategy(tier: Tier) -> BoxedStrategy<Case> {
         let n = tier.pick(16usize, 40);
-        (
+        let seq = (
             prop_oneof![4 => Just(0u32), 1 => Just(1u32 << 20)],
             prefix_ops(),
             prop::collection::vec(crash_op(9), 1..=n),
@@ -53,12 +64,27 @@ impl Prop for P {
         )
             .prop_map(|(min_len, mut ops, tail, seed)| {
                 ops.extend(tail);
-                Case { min_len, ops, seed }
-            })
-            .boxed()
+                Case::Seq(SeqCase { min_len, ops, seed })
+            });
+        let conc = c10::case_strategy(tier.pick(5usize, 10), true).prop_map(Case::Conc);
+        prop_oneof![2 => seq, 3 => conc].boxed()
     }
 
     fn run(case: &Case, obs: &mut Obs) -> Result<(), String> {
+        let case = match case {
+            Case::Seq(c) => {
+                obs.label("part:sequential+crash");
+                c
+            }
+            Case::Conc(c) => {
+                // compact() running concurrently with writers: per-program byte models, Readers, final
+                // extent invariants (the C10 engine); a program that mostly compacts
+                obs.label("part:concurrent");
+                let r = c10::run_case(c, obs);
+                obs.nontrivial = obs.has("compact-overlapped-a-write-that-extended-a-region") || obs.has("compact-ran") && obs.has(">=2-programs-holding-locks-at-once");
+                return r;
+            }
+        };
         // ---- phase 1: the live database. Contents vs model are compared after every op by E1;
         // here: placement, lengths and the file length across each compact().
         let rec = record(case.min_len as usize, &case.ops, obs, |op, r, sut| {
@@ -145,12 +171,21 @@ impl Prop for P {
     }
 
     fn mandatory_labels() -> &'static [&'static str] {
-        &["punch:reserve-tail", "punch:free-extent", "punch-with>=2-live-regions", "crash:inside-compact", "crash:after-punch-before-sync"]
+        &[
+            "punch:reserve-tail",
+            "punch:free-extent",
+            "punch-with>=2-live-regions",
+            "crash:inside-compact",
+            "crash:after-punch-before-sync",
+            "part:concurrent",
+            "compact-ran",
+            "compact-overlapped-a-write-that-extended-a-region",
+        ]
     }
 
     fn assumptions() -> Vec<String> {
         vec![
-            "sequential histories only: interleavings of compact() with concurrent writers are not explored by this check".into(),
+            "concurrent part: interleavings at lock-request / yield-point granularity, sequential consistency (E6)".into(),
             "crash model as in C05 (atomic 4 KiB pages, ordered durable length changes, a punch = zero pages durable at the next data sync)".into(),
         ]
     }
